@@ -120,8 +120,9 @@ var (
 	reLoop      = regexp.MustCompile(`^loop\s+(\d+)\s+invariant\s*`)
 	reAtCall    = regexp.MustCompile(`^(at|after)\s+call\s+(\S+)\s+#(\d+|\*)\s+(assert|ghost|assume)\s*`)
 	reAtReturn  = regexp.MustCompile(`^at\s+return\s+#?(\d+|\*)\s+(assert|ghost)\s*`)
+	reAtAssign  = regexp.MustCompile(`^at\s+assign\s+(\w+)\s+#(\d+|\*)\s+(assert|ghost|assume)\s*`)
 	reAtEntry   = regexp.MustCompile(`^at\s+entry\s+(ghost|assume)\s*`)
-	reAtLoop    = regexp.MustCompile(`^at\s+loop\s+(\d+)\s+(body|exit)\s+(assert|ghost|assume)\s*`)
+	reAtLoop    = regexp.MustCompile(`^at\s+loop\s+(\d+)\s+(body|exit|init)\s+(assert|ghost|assume)\s*`)
 )
 
 var clauseKeywords = []string{"requires", "ensures", "assigns", "loop ", "at ", "after ", "safe", "opt ", "func ", "trusted ", "ghost ", "spec ", "axiom", "pure ", "mode ", "props ", "invariant", "establishes ", "noinv"}
@@ -400,6 +401,19 @@ func ParseContractFile(path, pkgPath string) (*PkgContracts, error) {
 				c.AnchorKind = "return"
 				if m[1] != "*" {
 					c.AnchorOrd, _ = strconv.Atoi(m[1])
+				}
+				cur.Anchored = append(cur.Anchored, c)
+			case reAtAssign.MatchString(t):
+				// at assign <local> #k ...: right after the k-th assignment statement (source order) to that local
+				m := reAtAssign.FindStringSubmatch(t)
+				c, err := anchoredClause(m[3], t[len(m[0]):], mkClause)
+				if err != nil {
+					return nil, err
+				}
+				c.AnchorKind = "assign"
+				c.AnchorName = m[1]
+				if m[2] != "*" {
+					c.AnchorOrd, _ = strconv.Atoi(m[2])
 				}
 				cur.Anchored = append(cur.Anchored, c)
 			case reAtEntry.MatchString(t):
